@@ -122,7 +122,9 @@ CHECKS = {
              "NeverTooMuch/RoundTrips/Refuses/NoSilentCut for the intended decision rule over all streams up to a bound and refutes 'check only the unconsumed "
              "tail', 'inflate fully then check', an off-by-one limit and a silent cut. Each final-state class is run at the real limit: lengths 0..cap+259, 2*cap "
              "x constant/periodic/random data x raw/zlib framing x encs x serializations as refimpl-authenticated JWEs, and 64 MiB (512 MiB thorough) bombs "
-             "whose decryption must raise exceeded-size within a traced-memory bound.",
+             "whose decryption must raise exceeded-size within a traced-memory bound. DeflateShared.tla states that two decompress calls through the one shared "
+             "DEF model each decide as in isolation (refuting inflater state kept on the model); the line-granular scheduler runs pairs of zip decryptions "
+             "within and beyond the limit under every one-preemption schedule.",
         note="Trusted: TLC, zlib as primitive, tracemalloc as memory observer (Python allocations only)."),
     "C16": dict(
         cat="model_checking", ref="DESIGN.md section 6 (C16)",
@@ -149,7 +151,9 @@ CHECKS = {
         text="Each output in Jwk.tla carries whether it depends on private atoms; TLC checks that public JWKs, public key-set exports, public PEM/DER, thumbprints "
              "and kids never do and that a private export of a public-only key is an error. On the real code each such output is scanned for every private "
              "parameter of the key as member name and as octets in raw, hex, decimal, base64 and base64url form at three alignments; tokens of all 15 JWS and 21 "
-             "JWE algorithms (compact and JSON, epk included) are scanned as well.",
+             "JWE algorithms (compact and JSON, epk included) are scanned as well. JwkHeap.tla follows which dictionary object holds which private member "
+             "when two keys are built over caller-owned parameter dictionaries (build / first use / public export / key-set export histories, refuting a view "
+             "built inside the caller's dictionary); its behaviours are replayed on real keys with the predicted leaked-member set compared at every export.",
         note="Trusted: the scanner's encodings; parameters shorter than 8 octets are not searched. Timing/error-message leakage not decided."),
     "C13": dict(
         cat="model_checking", ref="DESIGN.md section 6 (C13)",
@@ -176,7 +180,8 @@ CHECKS = {
              "schedules. On the real code a deterministic scheduler (sys.settrace, one runnable thread, baton passing at source lines inside joserfc) runs "
              "every pair of 15 operations on fresh shared objects under every one-preemption schedule (every line for pairs of cryptographic operations) plus "
              "sampled two-preemption schedules; each call is compared with isolation, produced tokens are verified/decrypted by refimpl, IVs must differ and an "
-             "observed kid must stay. SharedSeq.tla histories are executed against fresh clones; 16-32 thread stress runs at a 1 microsecond switch interval.",
+             "observed kid must stay. Recorded executions (projection of the real key object after every source line: which dict object the view is bound to, "
+             "filled?, kid?) are validated by TLC against Shared.tla (TraceShared.tla; a trace that rebinds the view is shown to be rejected). SharedSeq.tla histories are executed against fresh clones; 16-32 thread stress runs at a 1 microsecond switch interval.",
         note="Trusted: TLC, CPython's GIL semantics at line granularity, refimpl. Bytecode-level and C-level races are not decided."),
 }
 
